@@ -327,6 +327,11 @@ def token_mutations(ctx, n, workdir):
         items = [it for it in lex.lex(text, lang) if it[0] == "tok"]
         if len(items) < 10:
             continue
+        import re as _re
+        if _re.search(r"\d\.\d+\.\d", text):
+            # '10.12.2' is a version inside @available( ) only; a mutation that removes that context leaves a preprocessing number that is
+            # no number of the language (uncrustify reads '10.12' '.2')
+            continue
         edits = []
         for _ in range(ctx.rng.randint(1, 6)):
             k = ctx.rng.randrange(len(items) - 1)
